@@ -43,6 +43,8 @@ TOKENS = [
     'é'.encode(),
     L('[1001.100]  -> wl_registry@2.bind(1, "wl_compositor", 4, new id [unknown]@1)'),
     L('[1001.200]  -> wl_registry@2.bind(1, "wl_compositor", 4, new id wl_seat@9)'),
+    # a well-formed time stamp too large for a float (the gap to its neighbour is infinite)
+    L('[' + '9' * 330 + '.000]  -> wl_display@1.sync(new id wl_callback@5)'),
 ]
 MODES = ['file', 'pipe_strict', 'pipe_surrogate', 'run']
 
@@ -154,6 +156,11 @@ def gen_cli(tier):
         for mode in ('file', 'pipe', 'run'):
             for loc in ('C', 'C.utf8', 'strict_stdout'):
                 yield {'cli_tokens': toks, 'mode': mode, 'locale': loc}
+    # the overlarge time stamp after an ordinary message, listed again at the prompt
+    yield {'cli_tokens': [0, len(TOKENS) - 1], 'mode': 'file', 'locale': 'C.utf8', 'commands': b'list\nlist wl_display\nq\n'}
+    # run mode: a program that closes its standard error and goes on for more than a second; one that is gone at once
+    yield {'cli_tokens': [0, 1], 'mode': 'run_lingering', 'locale': 'C.utf8'}
+    yield {'cli_tokens': [], 'mode': 'run_lingering', 'locale': 'C.utf8'}
 
 
 def eval_cli(case):
@@ -176,8 +183,12 @@ def eval_cli(case):
             argv, stdin, want_rc = ['/venv/bin/python', main_py, '-l', path], b'q\n', 0
         elif case['mode'] == 'pipe':
             argv, stdin, want_rc = ['/venv/bin/python', main_py, '-p'], data, 0
+        elif case['mode'] == 'run_lingering':
+            argv, stdin, want_rc = ['/venv/bin/python', main_py, '-r', '/bin/sh', '-c', 'cat "$1" >&2; exec 2>&-; sleep 1.4; exit 3', 'sh', path], b'q\n', 3
         else:
             argv, stdin, want_rc = ['/venv/bin/python', main_py, '-r', '/bin/sh', '-c', 'cat "$1" >&2; exit 3', 'sh', path], b'q\n', 3
+        if case.get('commands'):
+            stdin = case['commands']
         try:
             p = subprocess.run(argv, input=stdin, capture_output=True, env=env, cwd=d, timeout=60)
             out = p.stdout.decode('utf-8', 'replace')
@@ -267,7 +278,7 @@ def gen_matchers(tier):
 # commands
 
 CMD_NAMES = ['help', 'list', 'filter', 'breakpoint', 'matcher', 'connection', 'resume', 'quit']
-ARGS = ['', 'quit', 'resume', 'q', 'wlquit', 'r', 'help', 'wl_surface', '[', 'a:b:c', '~', '~ 3', '~ x', 'wl_surface ~ 2', '~ -1', '~ 0', '~~', 'x ~ 1 ~ 2', '*', '!', 'A', 'all', 'zz',
+ARGS = ['org.example.editor', 'editor', 'ORG.EXAMPLE.EDITOR', 'C', 'wl_display.sync', '', 'quit', 'resume', 'q', 'wlquit', 'r', 'help', 'wl_surface', '[', 'a:b:c', '~', '~ 3', '~ x', 'wl_surface ~ 2', '~ -1', '~ 0', '~~', 'x ~ 1 ~ 2', '*', '!', 'A', 'all', 'zz',
         'matcher', 'list', 'wl list', '(5)', '(1.5)', '(inf)', '("y")', 'B: 4a', '\x1b[31m', '\x00', 'é', '  ', '.new', '.destroyed(x)',
         '~ 99999999999999999999', '4294967296', '(-1e999)', ':', '@', '#', '=', '""', '"']
 STATES = ['empty', 'loaded', 'selected', 'closed']
@@ -293,6 +304,11 @@ def make_state(name):
             s.feed_line(l)
         s.feed_line('[7000020.000] <1> wl_registry@2.global(1e999, "y", -1e999)')
         s.feed_line('[7000021.000] <1>  -> zz_q@77.foo(1, "s", nil, fd 3, array[2], 1.50000000, new id [unknown]@78, zz_q@79, -3)')
+        # two more connections that announce the same application id (two windows of one program)
+        for c in ('5', '6'):
+            s.feed_line('[7000022.000] <%s>  -> wl_display@1.get_registry(new id wl_registry@2)' % c)
+            s.feed_line('[7000022.000] <%s>  -> xdg_toplevel@9.set_app_id("org.example.editor")' % c)
+        s.feed_line('[' + '9' * 330 + '.000] <1>  -> wl_display@1.sync(new id wl_callback@5)')
     if name == 'selected':
         s.cmd('connection B')
     if name == 'closed':
